@@ -133,7 +133,25 @@ def specs(draw, tier):
     cls0 = draw(st.sampled_from(CLASSES[dim]))
     n = draw(st.integers(1, 50 if tier == "quick" else 200))
     f = {"emulsion": emulsion_ops, "timecourse": timecourse_ops, "track": track_ops}[machine]
-    return {"machine": machine, "dim": dim, "cls": cls0, "ops": draw(f(dim, cls0, n))}
+    spec = {"machine": machine, "dim": dim, "cls": cls0, "ops": draw(f(dim, cls0, n))}
+    fam = draw(st.sampled_from([None, None, None, None, [1.0, 1e-7], [10.0, 1e-9], [0.3, 3e-9], [1e8, 1.0]]))
+    if fam is not None:
+        # nearly monodisperse history: every positive droplet radius is replaced by base + k * step (k = 0..15), so that the
+        # spread of radii and volumes is many orders of magnitude smaller than their mean
+        spec["radius_family"] = fam
+
+        def remap(o):
+            if isinstance(o, dict):
+                if "radius" in o and "position" in o and o["radius"] > 0:
+                    o["radius"] = float(fam[0] + (int(round(o["radius"] * 1000)) % 16) * fam[1])
+                for v in o.values():
+                    remap(v)
+            elif isinstance(o, list):
+                for v in o:
+                    remap(v)
+
+        remap(spec["ops"])
+    return spec
 
 
 # --- model helpers ----------------------------------------------------------------------------
@@ -459,9 +477,10 @@ class C20(Property):
             for k, v in exp.items():
                 got = st_.get(k)
                 if k.endswith("_std") and not math.isnan(v):
-                    # a standard deviation suffers cancellation: compare relative to the magnitude of the data
+                    # a standard deviation suffers cancellation: compare relative to the magnitude of the data (one-ulp differences of the
+                    # individual values move it by ~1e-16 x magnitude; 1e-13 leaves a factor of several hundred)
                     mag = float(np.abs(radii[sel] if k.startswith("radius") else vols[sel]).max())
-                    ok = abs(float(got) - v) <= 1e-9 * mag + 1e-290
+                    ok = abs(float(got) - v) <= 1e-13 * mag + 1e-290
                 else:
                     ok = got == v if k == "count" else close(float(v), float(got))
                 if not ok:
@@ -500,8 +519,13 @@ class C20(Property):
             ok = isinstance(data, np.ndarray) and len(data) == n and data.dtype == M[0][1] and all(data[i].tobytes() == M[i][2] for i in range(n))
             if not ok:
                 fail("data", f"Emulsion.data (dtype {getattr(data, 'dtype', None)}, len {len(data)}) does not reproduce the members")
-            if np.shares_memory(data, E[0].data) and False:
-                fail("data:not-a-copy", "Emulsion.data aliases a member")
+            # documented: "The returned array is a copy of all the data and writing to it will thus not change the underlying data";
+            # the write below is followed by the content-equals-model comparison that runs after every step
+            try:
+                data["radius"][...] = -7.0
+                data["position"][...] = 1e9
+            except ValueError:
+                pass  # a read-only result is fine
         # order independence
         if n >= 2:
             P = Emulsion(list(E)[::-1])
@@ -739,6 +763,12 @@ class C20(Property):
             rad = TR.get_radii()
             if not np.array_equal(rad, np.array([float(r["radius"]) for r in recs])):
                 fail("radii", "get_radii() differs from the member radii")
+            # the caller owns the returned arrays: writing into them must not leak into the track (checked after the step)
+            for arr_out in (traj, rad):
+                try:
+                    arr_out[...] = -3.0
+                except ValueError:
+                    pass
             if all(e[0] != "PerturbedDroplet2D" or True for e in Me):
                 vols = TR.get_volumes()
                 expv = np.array([vol_of(e) for e in Me])
@@ -754,6 +784,12 @@ class C20(Property):
                                 ok = False
                 if not ok:
                     fail("data", "DropletTrack.data does not reproduce times and members")
+                else:
+                    try:
+                        data["radius"][...] = -7.0
+                        data["time"][...] = 1e9
+                    except ValueError:
+                        pass
         else:
             if TR.data is not None or TR.dim is not None:
                 fail("empty", "empty track should have data None and dim None")
